@@ -15,6 +15,8 @@ import MajoranaVerif.Proofs.Mvp5Cycles
 import MajoranaVerif.Proofs.Mvp60Witness2
 import MajoranaVerif.Proofs.Mvp60SlNoPanic
 import MajoranaVerif.Proofs.Mvp60SlSpec
+import MajoranaVerif.Proofs.Mvp60LdOk
+import MajoranaVerif.Proofs.Mvp60LdWitness
 open GoInt Model Model.Seq Proofs.Seq Proofs.Refine
 
 namespace Props.C07
@@ -323,5 +325,35 @@ returns) -/
 example : WfApp Proofs.Mvp60JumpWitness.earlyApp ∧ Model.Mvp60.RegOnlyWf Proofs.Mvp60JumpWitness.earlyApp = true ∧
     (Spec.run (specProg Proofs.Mvp60JumpWitness.earlyApp) { regs := Array.replicate 32 0#32, mem := Array.replicate 64 0#8 } 200).stop = .ret :=
   ⟨Proofs.Mvp60JumpWitness.early_wf, Proofs.Mvp60JumpWitness.early_class.1, Proofs.Mvp60JumpWitness.early_spec⟩
+
+end Props.C07
+
+/-! ## MVP-6.0 (package R60d): no Go panic on straight-line programs with memory reads and `ret`
+
+The "not with a Go panic" half of totality for the class `Model.Mvp60.StraightLineLdR` (`lb`/`lh`/`lw`, no store, no branch or
+jump, no `div`/`rem`, `ret` anywhere), every number of execute and write units: every tick from a state of the out-of-order
+refinement relation `Proofs.Mvp60Ld.RelO` returns normally (`Proofs.Mvp60Ld.cycleM_okO`) — an L3 lookup is defined (hit, line
+pending, or miss: `l3_lookup`), at the end of a memory access the announced line can be fetched and pushed and the lookup then
+hits (`l3_fill`: the Go code's `panic("cache line doesn't exist")` is unreachable), every instruction of the class returns on
+the bytes it is handed, the instruction cache stays well-formed, no store reaches a write unit.  That the run ENDS within some
+tick budget is not proved for this class. -/
+namespace Props.C07
+
+/-- **MVP-6.0 never panics on the class `StraightLineLdR`** whenever the specification run is well-formed (the loads it
+executes are inside memory) and the memory is not larger than 2^31 − 64 bytes, from fresh scoreboards, for every number `K` of
+units and every tick budget: the run is still going, or it has ended with `ret` or past the end. -/
+theorem mvp60_readonly_never_panics (app : App) (hw : WfApp app) (hcls : Model.Mvp60.StraightLineLdR app = true)
+    (ctx : Model.Context) (m : Spec.Machine) (hR : Rel ctx m) (hmsz : m.mem.size + 64 ≤ 2 ^ 31)
+    (hpw : ∀ r, GoMap.get1 ctx.PendingWriteRegisters r = 0) (hpr : ∀ r, GoMap.get1 ctx.PendingReadRegisters r = 0)
+    (K fuel ticks : Nat) (hwf : ∀ why, (Spec.run (specProg app) m fuel).stop ≠ .notWf why) (w : String) :
+    (Model.Mvp60.run app ctx K K ticks).halt ≠ some (.panic w) :=
+  Proofs.Mvp60Ld.mvp60_ld_never_panics app ctx (Proofs.Mvp60Ld.progLd_of_spec app hw hcls ctx m hR hmsz fuel hwf).1 K ticks hpw hpr w
+
+/-- Non-vacuity: the hypotheses hold for `Proofs.Mvp60LdWitness.retApp` (well-formed, in the class, the specification run
+returns) -/
+example : WfApp Proofs.Mvp60LdWitness.retApp ∧ Model.Mvp60.StraightLineLdR Proofs.Mvp60LdWitness.retApp = true ∧
+    (Spec.run (specProg Proofs.Mvp60LdWitness.retApp)
+      { regs := Array.replicate 32 0#32, mem := ((List.range 256).map (fun i => BitVec.ofNat 8 (i + 1))).toArray } 50).stop = .ret :=
+  ⟨Proofs.Mvp60LdWitness.ret_wf, Proofs.Mvp60LdWitness.ret_classR, Proofs.Mvp60LdWitness.ret_spec⟩
 
 end Props.C07
